@@ -38,6 +38,9 @@ type Doc struct {
 	RowsMutate func(rows [][3]int) [][3]int
 	// IndirectLengths makes Bytes write every stream's /Length as a reference to an integer object.
 	IndirectLengths bool
+	// ZeroLengths (with IndirectLengths) writes 0 into every length object: a reader has to find the end of each
+	// stream by scanning for endstream.
+	ZeroLengths bool
 }
 
 func New() *Doc { return &Doc{objs: map[int]*object{}, next: 1, Version: "1.7", Eol: "\n"} }
@@ -86,6 +89,9 @@ func (d *Doc) Bytes() []byte {
 				top++
 				lenRef[n] = top
 				objs[top] = &object{nr: top, body: fmt.Sprint(len(d.objs[n].stream))}
+				if d.ZeroLengths {
+					objs[top].body = "0"
+				}
 				nrs = append(nrs, top)
 			}
 		}
